@@ -534,4 +534,13 @@ def readStyled (s : List UInt8) : Option (Style × Pat) :=
     [(⟨false, false⟩ : Style), ⟨true, true⟩, ⟨false, true⟩, ⟨true, false⟩].findSome? fun sty =>
       if render sty p = s then some (sty, p) else none
 
+/-! ## Note on the upper bound of `[a-b]` (second audit round)
+
+The header of this file lists "the upper bound is EXCLUSIVE, as implemented" among the readings taken where the
+documentation is silent.  It is not silent there: "lower and upper bound of number of bytes to skip" makes `b` a
+legal number of skipped bytes (YARA's `[4-6]` = 4, 5 or 6 bytes).  `sem` / `denote` (and `semI` / `denoteImpl` of
+`Spec/PatternSemImpl.lean`) are therefore specifications of what the implementation DOES at `[a-b]`; what the
+documentation SAYS is `denoteDoc` of `Spec/PatternSemDoc.lean`.  The difference is a recorded known finding
+(`Thm/C11Doc.lean:C11_doc_upper_bound_differs`, `known-findings.txt`), not repaired. -/
+
 end Pelite.PatSem
